@@ -392,8 +392,9 @@ def register(gen, T):
              stmts(inner, "decl"))
         emit("exporterOnlyDeclare", "`generate_function_inner`: every statement that mentions `only_declare`",
              stmts(inner, "only_declare"))
-        emit("exporterRootArms", "`generate_root_definition`: the statements that call `generate_function`",
-             stmts(root, "generate_function"))
+        emit("exporterRootArms", "`generate_root_definition`: the statements that mention `FunctionDeclaration` or call "
+             "`generate_function` (every arm for a prototype: none of them drops or rewrites it)",
+             stmts(root, "FunctionDeclaration") + [t for t in stmts(root, "generate_function") if "FunctionDeclaration" not in t])
         emit("exporterDefault", "`generate_function_param`: every statement that mentions `default_expr`",
              stmts(param, "default_expr"))
         emit("typerPredeclaration", "`parse_function`: every statement that mentions `id` (which declaration owns the function)",
